@@ -733,14 +733,16 @@ def client_stream(ctx, U, rng):
                 if s2 != val and s2 not in seen and not any(s2 == g[2] for g in gl):
                     seen.add(s2)
                     judge(s2, enc, kind, val)
-    # loads a decoding layer would rewrite (all characters SimpleCookie passes through unquoted)
-    for i, load in enumerate(["next=%2Fhome&x=a%20b", "100%7Csure", "%3A%3A", "15%25", "%", "%zz", "a+b", "+", "&#124;", "AbC", "q'q'"]):
+    # loads a decoding layer would rewrite; loads and re-encoded strings stay inside the characters http.cookies
+    # passes through literally (its quoted-string layer is the transport, not the cookie format under test)
+    legal = set("abcdefghijklmnopqrstuvwxyzABCDEFGHIJKLMNOPQRSTUVWXYZ0123456789!#$%&'*+-.^_`|~:")
+    for i, load in enumerate(["next%2Fhome&x%20b", "100%7Csure", "%3A%3A", "15%25", "%", "%zz", "a+b", "+", "&#124", "AbC", "q'q'"]):
         for enc in (None, CLIENT_ENC):
             issue(load, str(1700000100 + i), enc, "client-canon")
     for enc in (None, CLIENT_ENC):
         for load, ts, val in [g for g in genuine[enc] if "%" in g[0] or "+" in g[0]][:4]:
             for kind, s2 in reencodings(val):
-                if s2 != val and s2 not in seen_all and not any(s2 == g[2] for g in genuine[enc]):
+                if s2 != val and s2 not in seen_all and set(s2) <= legal and not any(s2 == g[2] for g in genuine[enc]):
                     seen_all.add(s2)
                     judge(s2, enc, kind, val)
     # a separator inside the load (signed-only: four parts are taken for the AES-GCM variant)
